@@ -70,9 +70,18 @@ def run(ctx):
             # in graceful state a connection error writes no second GOAWAY: the connection just ends (shutdown timer)
             st = {'expect': dst['out'], 'dead': src['ga'] == 'error', 'silent': src['ga'] == 'graceful' and dst['ga'] == 'error'}
             if e[2] == 'ClientFrame':
-                st['f'] = e[3]
+                st['f'] = list(e[3])
                 sid = e[3][1]
                 im = src['inMap']   # a function on 1..n is printed as a sequence by TLC
+                if e[3][0] == 'DATA':
+                    # the form of the frame is the harness's choice (the model is indifferent to padding): plain, padded, padding only.
+                    # A stream that declared content-length 1 keeps its three data octets (that is what its reaction is about).
+                    msv = src['ms']
+                    flav = (msv[sid - 1] if isinstance(msv, list) else msv.get(str(sid))) if sid >= 1 else '-'
+                    form = (pi * 7 + len(steps)) % 3
+                    if form == 2 and flav in ('opensmall', 'hcrsmall'):
+                        form = 1
+                    st['f'].append(form)
                 st['trailer'] = bool(sid in (1, 2, 3, 5) and (im[sid - 1] if isinstance(im, list) else im.get(str(sid))))
             else:
                 st['finish'] = e[3][0]
